@@ -36,14 +36,16 @@ SIG = {
     'eme_pkcs1_v15_padded': {'sort': 'bool', 'facts': ['any((not result, eme_pkcs1_v15_sep(em) >= 10))']},
     'pkcs1_decode_bad_args': 'bool',
     # ---- section MGF1 / EMSA-PSS / RSAES-OAEP (sig_pss.py, enc_oaep.py)
-    'MGF': {'sort': 'bytes', 'uf': True, 'facts': ['length >= 0 ==> len(result) == length']},
+    # (facts are written with ite() instead of ==> / and: a fact is evaluated at every application, connectives fork the evaluation)
+    'MGF': {'sort': 'bytes', 'uf': True, 'facts': ['len(result) == ite(length >= 0, length, len(result))']},
     'mgf1_T': {'sort': 'bytes', 'uf': True,
                'facts': ['result == ite(blocks <= 0, b"", mgf1_T(alg, seed, blocks - 1) + Hash(alg, seed + i2osp(blocks - 1, 4)))']},
-    'mgf1': {'sort': 'bytes', 'facts': ['(0 <= maskLen and maskLen <= 4294967296 * hlen(alg)) ==> len(result) == maskLen']},
+    'mgf1': {'sort': 'bytes',
+             'facts': ['len(result) == ite(0 <= maskLen, ite(maskLen <= 4294967296 * hlen(alg), maskLen, len(result)), len(result))']},
     'first_nonzero': {'sort': 'int', 'uf': True,
-                      'facts': ['0 <= result and result <= len(s)', 's[:result] == rep(bytes(1), result)',
-                                'result < len(s) ==> nth(s, result) != 0']},
-    'emsa_pss_ok': 'bool', 'emsa_pss_em': 'bytes', 'oaep_ok': 'bool', 'oaep_em': 'bytes', 'oaep_message': 'bytes', 'oaep_decode_c': 'int',
+                      'facts': ['0 <= result', 'result <= len(s)', 's.startswith(rep(bytes(1), result))',
+                                'ite(result < len(s), nth(s, result), 1) != 0']},
+    'emsa_pss_ok': 'bool', 'emsa_pss_consistent': 'bool', 'emsa_pss_em': 'bytes', 'oaep_ok': 'bool', 'oaep_em': 'bytes', 'oaep_message': 'bytes', 'oaep_decode_c': 'int',
 }
 
 
@@ -301,6 +303,12 @@ def emsa_pss_ok(alg, hLen, mHash, em, emBits, sLen, dbMask):
         return False
     if emLen < hLen + sLen + 2:                                     # step 3
         return False
+    return emsa_pss_consistent(alg, hLen, mHash, em, emBits, sLen, dbMask)
+
+
+def emsa_pss_consistent(alg, hLen, mHash, em, emBits, sLen, dbMask):
+    """steps 4-14 of 9.1.2 for an EM of emLen >= hLen + sLen + 2 octets"""
+    emLen = ceil8(emBits)
     if nth(em, len(em) - 1) != 188:                                 # step 4: the rightmost octet of EM is 0xbc
         return False
     maskedDB = em[:emLen - hLen - 1]                                # step 5: EM = maskedDB || H || 0xbc
@@ -322,22 +330,29 @@ def pss_H(em, emBits, hLen):
 
 def first_nonzero(s):
     """index of the first non-zero octet of s, len(s) if there is none (uninterpreted; the SIG facts define it:
-    0 <= i <= len(s), s[:i] consists of zero octets, and s[i] != 0 when i < len(s))"""
+    0 <= i <= len(s), s starts with i zero octets, and s[i] != 0 when i < len(s))"""
     pass
 
 
-def oaep_em(lHash, M, k, seed, dbMask, seedMask):
-    """EME-OAEP encoding, RFC 8017 7.1.1 step 2 (b-i), with dbMask = MGF(seed, k - hLen - 1) and
-    seedMask = MGF(maskedDB, hLen) supplied by the caller:  DB = lHash || PS || 0x01 || M,
-    EM = 0x00 || (seed xor seedMask) || (DB xor dbMask)"""
+def oaep_em(lHash, M, k, seed, mgf):
+    """EME-OAEP encoding, RFC 8017 7.1.1 step 2 (b-i), for a mask generation function mgf (any callable; hLen = len(lHash)):
+       DB = lHash || PS || 0x01 || M with PS = k - mLen - 2 hLen - 2 zero octets,
+       dbMask = MGF(seed, k - hLen - 1), maskedDB = DB xor dbMask, seedMask = MGF(maskedDB, hLen), maskedSeed = seed xor seedMask,
+       EM = 0x00 || maskedSeed || maskedDB"""
     hLen = len(lHash)
     DB = lHash + rep(bytes(1), k - len(M) - 2 * hLen - 2) + b'\x01' + M
-    return b'\x00' + xor(seed, seedMask) + xor(DB, dbMask)
+    maskedDB = xor(DB, mgf(seed, k - hLen - 1))
+    maskedSeed = xor(seed, mgf(maskedDB, hLen))
+    return b'\x00' + maskedSeed + maskedDB
 
 
-def oaep_maskedDB(lHash, M, k, dbMask):
-    """maskedDB of 7.1.1 step 2f (the seed of the second MGF call)"""
-    return xor(lHash + rep(bytes(1), k - len(M) - 2 * len(lHash) - 2) + b'\x01' + M, dbMask)
+def oaep_db(EM, hLen, mgf):
+    """RFC 8017 7.1.2 steps 3b-3f for a mask generation function mgf (any callable): EM = Y || maskedSeed || maskedDB,
+       seed = maskedSeed xor MGF(maskedDB, hLen), DB = maskedDB xor MGF(seed, k - hLen - 1), k = len(EM)"""
+    maskedSeed = EM[1:hLen + 1]
+    maskedDB = EM[hLen + 1:]
+    seed = xor(maskedSeed, mgf(maskedDB, hLen))
+    return xor(maskedDB, mgf(seed, len(EM) - hLen - 1))
 
 
 def oaep_ok(Y, lHash, DB):
@@ -352,6 +367,16 @@ def oaep_message(lHash, DB):
     """the message M of DB = lHash' || PS || 0x01 || M (meaningful when oaep_ok)"""
     h = len(lHash)
     return DB[h + first_nonzero(DB[h:]) + 1:]
+
+
+def oaep_decrypt_ok(EM, hLen, lHash, mgf):
+    """EME-OAEP decoding of EM succeeds (7.1.2 step 3: no "decryption error")"""
+    return oaep_ok(nth(EM, 0), lHash, oaep_db(EM, hLen, mgf))
+
+
+def oaep_decrypt_message(EM, hLen, lHash, mgf):
+    """the message M recovered from EM (7.1.2 steps 3-4)"""
+    return oaep_message(lHash, oaep_db(EM, hLen, mgf))
 
 
 def oaep_decode_c(em, lHash, db):
